@@ -158,9 +158,10 @@ struct Attempt {
     followed: Option<(Vec<u8>, Vec<u8>)>,
     /// the model expects the server to refuse the attempt with INVALID_TOKEN
     expect_invalid: bool,
-    /// the server accepted an Initial of this attempt: (server inc, CIDs echoed correctly)
-    accepted: Option<(u32, bool)>,
-    tp_broken: bool,
+    /// server connections created from Initials of this attempt (a retransmitted pre-Retry
+    /// Initial may create one next to the real one): (server inc, CIDs echoed correctly,
+    /// CID-echo parameters corrupted in transit)
+    accepts: Vec<(u32, bool, bool)>,
     /// a forged / corrupted Retry or a rebind / clock jump interfered: outcome not judged
     disturbed: bool,
 }
@@ -685,12 +686,9 @@ impl Scenario for TokScen {
             let n = *self.n_sessions.lock().unwrap();
             let broken = std::mem::take(&mut *self.tp_hit.lock().unwrap());
             let _ = n;
-            if self.attempts[a].accepted.is_none() {
-                self.attempts[a].accepted = Some((inc, ok));
-                self.attempts[a].tp_broken = broken;
-                if broken {
-                    w.faults.hit("cid_echo_parameter_corrupted");
-                }
+            self.attempts[a].accepts.push((inc, ok, broken));
+            if broken {
+                w.faults.hit("cid_echo_parameter_corrupted");
             }
         }
     }
@@ -923,7 +921,7 @@ fn run(ch: Chooser, ctx: &RunCtx, o: Opts) -> RunOut {
         let client = w.ch.weighted("c14.client", &[50, 20, 20, 10]);
         let server = if w.ch.chance("c14.other_server", 1, 6) { 1 } else { 0 };
         let tok_mode = w.ch.weighted("c14.tok_mode", &[35, 10, 30, 25]) as u32;
-        attempts.push(Attempt { at: t, client, server, tok_mode, inc: None, presented: Vec::new(), connected: false, lost: None, lost_code: None, first_dcid: None, cur: None, followed: None, expect_invalid: false, accepted: None, tp_broken: false, disturbed: false });
+        attempts.push(Attempt { at: t, client, server, tok_mode, inc: None, presented: Vec::new(), connected: false, lost: None, lost_code: None, first_dcid: None, cur: None, followed: None, expect_invalid: false, accepts: Vec::new(), disturbed: false });
         w.wake_at(t, TAG_ATTEMPT + i);
     }
     let n_jumps = w.ch.range("c14.n_jumps", 0, 3);
@@ -1012,14 +1010,11 @@ fn end_checks(w: &mut World, sc: &TokScen) {
     for (i, a) in sc.attempts.iter().enumerate() {
         let Some(inc) = a.inc else { continue };
         // a completed handshake needs the CIDs echoed truthfully, under any schedule
-        if a.connected {
-            match a.accepted {
-                Some((_, ok)) if !ok || a.tp_broken => {
-                    w.violate("handshake-completed-despite-cid-mismatch", format!("attempt {} (inc{}) completed its handshake although the connection IDs the server echoes in its transport parameters {} (first dcid {:?}, followed retry {:?})", i, inc, if a.tp_broken { "were corrupted in transit" } else { "cannot match the ones the client used" }, a.first_dcid.as_ref().map(|x| hex(x)), a.followed.as_ref().map(|x| hex(&x.0))));
-                    return;
-                }
-                _ => {}
-            }
+        let good = a.accepts.iter().any(|(_, ok, broken)| *ok && !*broken);
+        if a.connected && !a.accepts.is_empty() && !good {
+            let broken = a.accepts.iter().any(|x| x.2);
+            w.violate("handshake-completed-despite-cid-mismatch", format!("attempt {} (inc{}) completed its handshake although the connection IDs the server echoes in its transport parameters {} (first dcid {:?}, followed retry {:?}, server connections {:?})", i, inc, if broken { "were corrupted in transit" } else { "cannot match the ones the client used" }, a.first_dcid.as_ref().map(|x| hex(x)), a.followed.as_ref().map(|x| hex(&x.0)), a.accepts));
+            return;
         }
         if !sc.lossless || a.disturbed {
             continue;
@@ -1036,15 +1031,13 @@ fn end_checks(w: &mut World, sc: &TokScen) {
             w.probes.hit("attempt_ended_with_invalid_token");
             continue;
         }
-        match a.accepted {
-            Some((_, true)) if !a.tp_broken => {
-                if !a.connected {
-                    w.violate("honest-attempt-failed", format!("attempt {} (inc{}) on a loss-free network: the server accepted it and echoed the right connection IDs, yet the client did not connect ({:?})", i, inc, a.lost));
-                    return;
-                }
+        if good {
+            if !a.connected {
+                w.violate("honest-attempt-failed", format!("attempt {} (inc{}) on a loss-free network: the server accepted it and echoed the right connection IDs, yet the client did not connect ({:?})", i, inc, a.lost));
+                return;
             }
-            Some(_) => w.probes.hit("attempt_failed_on_cid_mismatch"),
-            None => {}
+        } else if !a.accepts.is_empty() {
+            w.probes.hit("attempt_failed_on_cid_mismatch");
         }
     }
 }
@@ -1201,7 +1194,7 @@ pub fn spec() -> PropSpec {
             Family { name: "token-log-histories", f: fam_token_log, weight: 10 },
             Family { name: "token-cache-histories", f: fam_token_cache, weight: 10 },
         ],
-        quick_worlds: 40_000,
+        quick_worlds: 80_000,
         thorough_worlds: 1_500_000,
         panic_is_violation: true,
         rule: "each world = two server endpoints (different token keys; Retry policy, retry / validation token lifetimes, tokens per connection and token log implementation drawn: exact reference set, default BloomTokenLog, BloomTokenLog of 0..256 bytes, NoneTokenLog) and four client endpoints (two sharing an IP address) sharing one TokenMemoryCache of drawn capacity, running a drawn history of 2..10 connection attempts spaced 50 ms..20 s apart; each attempt presents the store's token, none, a verbatim copy of any token seen on the wire so far, or a bit-flipped / truncated / extended / spliced / random one, from a drawn address and against either server; the servers' clock jumps forward at drawn instants; after a Retry the client may be rebound (port or address) or the clock may jump past the token lifetime; retry-integrity worlds inject single-bit corruptions of genuine Retry packets and forged Retry packets carrying a valid integrity tag at drawn instants; cid-echo worlds corrupt one of the three CID-echo transport parameters of one server session (alter, remove, shorten, add); two model families drive BloomTokenLog and TokenMemoryCache directly through drawn histories; distinct = distinct abstract-event signature",
